@@ -103,27 +103,48 @@ def ptnghb_cuts(c):
 
 
 def ptnghb_lemmas(L):
-    """corollaries of the postcondition alone (no reference to the code)."""
+    """corollaries of the postcondition alone (no reference to the code).  Each lemma is a list of steps;
+    every step is proved from the hypotheses and the previous steps (so nothing is taken on trust)."""
     mk, mth, nspec = z3.Int("mk"), z3.Int("mth"), z3.Int("nspec")
     A = L.array("neigh")
     i1, j1, i2, j2 = z3.Ints("i1 j1 i2 j2")
     n, m = i1 + mk * j1, i2 + mk * j2
     bins = And(0 <= i1, i1 < mk, 0 <= j1, j1 < mth, 0 <= i2, i2 < mk, 0 <= j2, j2 < mth)
-    post = table_clauses(A, mk, mth, nspec, inst=[(n,), (m,)], inst2=[(j1, i1), (j2, i2)])
-    hyps = [dims_ok(mk, mth, nspec), bins] + [f for _, f in post]
-    out = []
-    out.append(("symmetry", hyps, in_list(A, n, m) == in_list(A, m, n)))
-    # shift-equivariance under j -> (j+1) mod mth
     j1s, j2s = wrap(j1 + 1, mth), wrap(j2 + 1, mth)
     ns, ms = i1 + mk * j1s, i2 + mk * j2s
-    post_s = table_clauses(A, mk, mth, nspec, inst=[(n,), (ns,)], inst2=[(j1, i1), (j1s, i1)])
-    hyps_s = [dims_ok(mk, mth, nspec), bins] + [f for _, f in post_s]
-    out.append(("shift_equivariance", hyps_s, in_list(A, n, m) == in_list(A, ns, ms)))
-    # the spec's wrap() is the modulus on the range where it is used
-    x, q = z3.Ints("x q")
-    out.append(("wrap_is_mod", [mth >= 1, -1 <= x, x <= mth],
-                And(0 <= wrap(x, mth), wrap(x, mth) < mth,
-                    Or(wrap(x, mth) - x == 0, wrap(x, mth) - x == mth, wrap(x, mth) - x == -mth))))
+
+    def uniq(insts):
+        return All(("a", "b", "c", "d"), ((0, mk), (0, mth), (0, mk), (0, mth)),
+                   lambda a, b, c, d: Implies(a + mk * b == c + mk * d, And(a == c, b == d)), inst=insts)
+
+    def post(rows):
+        return [f for _, f in table_clauses(A, mk, mth, nspec, inst=[(r[2],) for r in rows],
+                                            inst2=[(r[1], r[0]) for r in rows])]
+    base = [dims_ok(mk, mth, nspec), bins]
+    out = []
+    # --- symmetry:  m in N(n)  <=>  n in N(m)
+    u1 = uniq([(i2, j2, i1 + di, wrap(j1 + dj, mth)) for di, dj in DIRS] +
+              [(i1, j1, i2 + di, wrap(j2 + dj, mth)) for di, dj in DIRS])
+    out.append(dict(label="symmetry", hyps=base + post([(i1, j1, n), (i2, j2, m)]), steps=[
+        ("unique_decomposition", u1),
+        ("set_symmetric", in_nbr_set(m, i1, j1, mk, mth) == in_nbr_set(n, i2, j2, mk, mth)),
+        ("list_is_set_n", in_list(A, n, m) == in_nbr_set(m, i1, j1, mk, mth)),
+        ("list_is_set_m", in_list(A, m, n) == in_nbr_set(n, i2, j2, mk, mth)),
+        ("goal", in_list(A, n, m) == in_list(A, m, n))]))
+    # --- shift-equivariance under j -> (j+1) mod mth:  m in N(n)  <=>  shift(m) in N(shift(n))
+    u2 = uniq([(i2, j2, i1 + di, wrap(j1 + dj, mth)) for di, dj in DIRS] +
+              [(i2, j2s, i1 + di, wrap(j1s + dj, mth)) for di, dj in DIRS])
+    out.append(dict(label="shift_equivariance", hyps=base + post([(i1, j1, n), (i1, j1s, ns)]), steps=[
+        ("unique_decomposition", u2),
+        ("set_equivariant", in_nbr_set(m, i1, j1, mk, mth) == in_nbr_set(ms, i1, j1s, mk, mth)),
+        ("list_is_set_n", in_list(A, n, m) == in_nbr_set(m, i1, j1, mk, mth)),
+        ("list_is_set_ns", in_list(A, ns, ms) == in_nbr_set(ms, i1, j1s, mk, mth)),
+        ("goal", in_list(A, n, m) == in_list(A, ns, ms))]))
+    # --- the spec's wrap() is the modulus on the range where it is used
+    x = z3.Int("x")
+    out.append(dict(label="wrap_is_mod", hyps=[mth >= 1, -1 <= x, x <= mth], steps=[
+        ("goal", And(0 <= wrap(x, mth), wrap(x, mth) < mth,
+                     Or(wrap(x, mth) - x == 0, wrap(x, mth) - x == mth, wrap(x, mth) - x == -mth)))]))
     return out
 
 
@@ -187,10 +208,401 @@ def int_minval_loop0(c):
             ("attained", z3.Exists([w], And(0 <= w, w < i, d[w] == mn)))]
 
 
+# --------------------------------------------------------------------------------------------
+# static invariant of the file-level buffers, partinit
+# --------------------------------------------------------------------------------------------
+def buffers_ok(c, view):
+    """lengths / liveness of the five buffers and the neighbour table, as seen through `view`."""
+    mk, mth, nspec = c.g("mk"), c.g("mth"), c.g("nspec")
+    out = [("dims", dims_ok(mk, mth, nspec))]
+    for g in GLOBAL_ARRAYS:
+        A = view(g)
+        out.append(("alive_" + g, A.alive))
+        out.append(("len_" + g, A.len == (9 * nspec if g == "neigh" else nspec)))
+    out += [("table_" + lab, f) for lab, f in table_clauses(view("neigh"), mk, mth, nspec)]
+    return out
+
+
+def static_inv_pre(c):
+    """mk > 0  ==>  buffers_ok   (mk = -1 initially: nothing allocated, nothing freed)."""
+    from engine.cvc.spec import implies
+    mk, mth, nspec = c.old("mk"), c.old("mth"), c.old("nspec")
+    out = []
+    for lab, f in buffers_ok(_OldView(c), c.oldgarr):
+        out.append(("static_" + lab, implies(mk > 0, f)))
+    return out
+
+
+class _OldView:
+    """presents the pre-state globals under the current-state accessor names."""
+
+    def __init__(self, c):
+        self.c = c
+
+    def g(self, name):
+        return self.c.old(name)
+
+
+def size_ok(nk, nth):
+    return And(nk >= 1, nth >= 1, 9 * nk * nth <= INT_MAX)
+
+
+def partinit_requires(c):
+    return [("sizes", size_ok(c.p("nk"), c.p("nth")))] + static_inv_pre(c)
+
+
+def partinit_ensures(c):
+    nk, nth = c.p("nk"), c.p("nth")
+    return [("mk", c.g("mk") == nk), ("mth", c.g("mth") == nth), ("nspec", c.g("nspec") == nk * nth)] + \
+        buffers_ok(c, c.garr)
+
+
+# --------------------------------------------------------------------------------------------
+# partition
+# --------------------------------------------------------------------------------------------
+def partition_requires(c):
+    nk, nth, spec, ipart = c.p("nk"), c.p("nth"), c.arr("spec"), c.arr("ipart")
+    return [("sizes", size_ok(nk, nth)), ("ihmax", c.p("ihmax") >= 1),
+            # wrapper contract: 2-D C-contiguous float32 input of nk*nth elements, fresh int32 output of same size
+            ("spec", And(spec.alive, spec.len == nk * nth)),
+            ("spec_init", All("k", (0, nk * nth), lambda k: spec.init(k))),
+            ("ipart", And(ipart.alive, ipart.len == nk * nth))] + static_inv_pre(c)
+
+
+def partition_ensures(c):
+    nk, nth, ipart = c.p("nk"), c.p("nth"), c.arr("ipart")
+    return [("ipart_written", All("k", (0, nk * nth), lambda k: ipart.init(k))),
+            ("ipart_block", And(ipart.alive, ipart.len == nk * nth))] + buffers_ok(c, c.garr)
+
+
+def partition_return0(c):
+    """the constant-spectrum early exit."""
+    ipart = c.arr("ipart")
+    return [("const_all_zero", All("k", (0, c.p("nk") * c.p("nth")), lambda k: ipart[k] == 0)),
+            ("const_npart", c.g("npart") == 0)]
+
+
+def _copy_outer(arrname):
+    def inv(c):
+        A, mk, mth, iang = c.arr(arrname), c.g("mk"), c.g("mth"), c.v("iang")
+        return [("range", And(0 <= iang, iang <= mth)),
+                ("written", All("k", (0, mk * iang), lambda k: A.init(k)))]
+    return inv
+
+
+def _copy_inner(arrname):
+    def inv(c):
+        A, mk, iang, ifreq = c.arr(arrname), c.g("mk"), c.v("iang"), c.v("ifreq")
+        return [("range", And(0 <= ifreq, ifreq <= mk)),
+                ("written", All("k", (0, mk * iang + ifreq), lambda k: A.init(k)))]
+    return inv
+
+
+def partition_loop2(c):
+    return [("range", And(1 <= c.v("i"), c.v("i") <= c.g("nspec")))]
+
+
+def partition_loop3(c):
+    ipart, i = c.arr("ipart"), c.v("i")
+    return [("range", And(0 <= i, i <= c.g("nspec"))),
+            ("zeros", All("k", (0, i), lambda k: And(ipart[k] == 0, ipart.init(k))))]
+
+
+def partition_loop4(c):
+    zp, i = c.garr("zp"), c.v("i")
+    return [("range", And(0 <= i, i <= c.g("nspec"))),
+            ("zp_written", All("k", (0, c.g("nspec")), lambda k: zp.init(k)))]
+
+
+def partition_loop5(c):
+    imi, i = c.garr("imi"), c.v("i")
+    return [("range", And(0 <= i, i <= c.g("nspec"))),
+            ("levels", All("k", (0, i), lambda k: And(imi.init(k), 0 <= imi[k], imi[k] < c.p("ihmax"))))]
+
+
+# --------------------------------------------------------------------------------------------
+# ptsort
+# --------------------------------------------------------------------------------------------
+def levels_ok(imi, nspec, ihmax):
+    return All("k", (0, nspec), lambda k: And(imi.init(k), 0 <= imi[k], imi[k] < ihmax))
+
+
+def perm_ok(ind, nspec):
+    return All("k", (0, nspec), lambda k: And(ind.init(k), 0 <= ind[k], ind[k] < nspec))
+
+
+def ptsort_requires(c):
+    nspec, imi, ind = c.g("nspec"), c.garr("imi"), c.garr("ind")
+    return [("nspec", And(nspec >= 1, nspec <= INT_MAX, c.p("nnspec") == nspec)),
+            ("ihmax", c.p("iihmax") >= 1),
+            ("imi", And(imi.alive, imi.len == nspec)),
+            ("levels", levels_ok(imi, nspec, c.p("iihmax"))),
+            ("ind", And(ind.alive, ind.len == nspec))]
+
+
+def ptsort_ensures(c):
+    ind, n, H = c.garr("ind"), c.g("nspec"), c.p("iihmax")
+    return [("ind_range", All("k", (0, n), lambda k: And(ind.init(k), 0 <= ind[k], ind[k] < n),
+                              inst=lambda k: [(preimage(k, n, H),)]))]
+
+
+# ghost theory of the counting sort ------------------------------------------------------------
+cnt = z3.Function("cnt", z3.IntSort(), z3.IntSort(), z3.IntSort())   # cnt(v,i) = #{k < i : a(k) = v}
+tot = z3.Function("tot", z3.IntSort(), z3.IntSort(), z3.IntSort())   # tot(v,i) = sum_{u < v} cnt(u,i)
+
+
+def b2i(b):
+    return If(b, IntVal(1), IntVal(0))
+
+
+def sort_theory(a, n, H):
+    """a: k -> level of bin k (a z3 term builder), n = nspec, H = ihmax.
+    -> (axioms, proof steps of the lemmas, lemma conclusions).  The axioms are the recursive *definitions*
+    of cnt and tot (a conservative extension); every lemma has proof obligations (ptsort:lemma:*)."""
+    from engine.cvc.spec import induction, step
+    ax = [
+        All("v", (0, H + 1), lambda v: cnt(v, 0) == 0),
+        All(("v", "i"), ((0, H + 1), (0, n)), lambda v, i: cnt(v, i + 1) == cnt(v, i) + b2i(a(i) == v)),
+        All("i", (0, n + 1), lambda i: tot(0, i) == 0),
+        All(("v", "i"), ((0, H), (0, n + 1)), lambda v, i: tot(v + 1, i) == tot(v, i) + cnt(v, i)),
+        # explicit witnesses (recursive definitions again): bucket of a position, index of the c-th occurrence
+        All(("w", "p"), ((0, H), (0, n)), lambda w, p: bkt(w + 1, p) == If(p < tot(w, n), bkt(w, p), w)),
+        All(("i", "v", "c"), ((0, n), (0, H), (0, n)),
+            lambda i, v, c: occ(v, c, i + 1) == If(c < cnt(v, i), occ(v, c, i), i)),
+    ]
+    steps, concl = [], []
+
+    def ind(label, var, lo, hi, P, insts=None):
+        st = induction(label, var, lo, hi, P, insts=insts)
+        steps.extend(st)
+        concl.append(st[-1]["assume"])
+
+    def direct(label, f):
+        steps.append(step(label, f))
+        concl.append(f)
+
+    # The `inst` hints name the instances of the axioms / earlier lemmas that the proof uses; they only make
+    # the queries quantifier-free-provable, they add no assumption.
+    # M1  0 <= cnt(v,i) <= i
+    ind("cnt_bounds", "i", 0, n + 1, lambda i: All("v", (0, H + 1), lambda v: And(0 <= cnt(v, i), cnt(v, i) <= i),
+                                                   inst=lambda v: [(v, i - 1)]))
+    # M5  tot(v,0) = 0
+    ind("tot_zero", "v", 0, H + 1, lambda v: tot(v, 0) == 0, insts=lambda v: [(v - 1, IntVal(0)), (v - 1,), (IntVal(0),)])
+    # M4  tot(v,i+1) = tot(v,i) + [a(i) < v]
+    ind("tot_step", "v", 0, H + 1, lambda v: All("i", (0, n), lambda i: tot(v, i + 1) == tot(v, i) + b2i(a(i) < v),
+                                                 inst=lambda i: [(v - 1, i + 1), (v - 1, i), (i + 1,)]))
+    # M6  tot(H,i) = i
+    ind("tot_total", "i", 0, n + 1, lambda i: tot(H, i) == i, insts=lambda i: [(H, i - 1), (i - 1,), (H,)])
+    # M8  cnt monotone in i
+    ind("cnt_mono", "j", 0, n + 1, lambda j: All(("v", "i"), ((0, H + 1), (0, n + 1)),
+                                                 lambda v, i: Implies(i <= j, cnt(v, i) <= cnt(v, j)),
+                                                 inst=lambda v, i: [(v, j - 1)]))
+    # M9  tot(.,n) monotone in v
+    ind("tot_mono", "w", 0, H + 1, lambda w: All("v", (0, H + 1), lambda v: Implies(v <= w, tot(v, n) <= tot(w, n)),
+                                                 inst=lambda v: [(w - 1, n), (n, w - 1)]))
+    # M3' 0 <= tot(v,n) <= n
+    direct("tot_bounds", All("v", (0, H + 1), lambda v: And(0 <= tot(v, n), tot(v, n) <= n),
+                             inst=lambda v: [(v, 0), (H, v), (n,)]))
+    # M7  the slot of bin k lies in [0,n)
+    direct("slot_range", All("k", (0, n), lambda k: And(0 <= tot(a(k), n) + cnt(a(k), k),
+                                                        tot(a(k), n) + cnt(a(k), k) < n),
+                             inst=lambda k: [(a(k), k), (a(k), n), (n, a(k), k + 1), (H, a(k) + 1), (n,), (a(k),), (a(k) + 1,)]))
+    # F   every position p < tot(w,n) lies in the bucket bkt(w,p) < w   (bkt: explicit witness, defined by ax[4,5])
+    ind("bucket", "w", 0, H + 1, lambda w: All("p", (0, n), lambda p: Implies(
+        p < tot(w, n), And(0 <= bkt(w, p), bkt(w, p) < w, tot(bkt(w, p), n) <= p, p < tot(bkt(w, p) + 1, n))),
+        inst=lambda p: [(w - 1, p), (n,)]))
+    # E   the c-th occurrence of level v among the first i bins is occ(v,c,i)   (defined by ax[6])
+    ind("occurrence", "i", 0, n + 1, lambda i: All(("v", "c"), ((0, H), (0, n)), lambda v, c: Implies(
+        c < cnt(v, i), And(0 <= occ(v, c, i), occ(v, c, i) < i, a(occ(v, c, i)) == v, cnt(v, occ(v, c, i)) == c)),
+        inst=lambda v, c: [(v, i - 1), (i - 1, v, c), (v,)]))
+    # S   the slot map k -> tot(a(k),n) + cnt(a(k),k) is onto [0,n): explicit preimage
+    direct("slot_onto", All("p", (0, n), lambda p: And(0 <= preimage(p, n, H), preimage(p, n, H) < n,
+                                                        tot(a(preimage(p, n, H)), n) + cnt(a(preimage(p, n, H)), preimage(p, n, H)) == p),
+                            inst=lambda p: [(H, p), (n,), (n, bkt(H, p), p - tot(bkt(H, p), n)),
+                                            (bkt(H, p), n), (bkt(H, p),), (bkt(H, p) + 1,)]))
+    return ax, steps, concl
+
+
+bkt = z3.Function("bkt", z3.IntSort(), z3.IntSort(), z3.IntSort())
+occ = z3.Function("occ", z3.IntSort(), z3.IntSort(), z3.IntSort(), z3.IntSort())
+
+
+def preimage(p, n, H):
+    """the bin that the counting sort places at position p."""
+    u = bkt(H, p)
+    return occ(u, p - tot(u, n), n)
+
+
+def ptsort_ghost(c):
+    imi = c.garr("imi")
+    ax, steps, concl = sort_theory(lambda k: imi[k], c.g("nspec"), c.p("iihmax"))
+    return [("axiom%d" % i, f) for i, f in enumerate(ax)] + [("lemma%d" % i, f) for i, f in enumerate(concl)]
+
+
+def ptsort_lemmas(L):
+    imi = L.array("imi")
+    n, H = z3.Int("nspec"), z3.Int("iihmax")
+    ax, steps, concl = sort_theory(lambda k: imi[k], n, H)
+    hyps = [n >= 1, H >= 1, All("k", (0, n), lambda k: And(0 <= imi[k], imi[k] < H))] + ax
+    return [dict(label="counting_sort", hyps=hyps, steps=steps)]
+
+
+def ptsort_loop0(c):
+    numv, i = c.arr("numv"), c.v("i")
+    return [("range", And(0 <= i, i <= c.p("iihmax"))),
+            ("zeroed", All("k", (0, i), lambda k: And(numv.init(k), numv[k] == 0)))]
+
+
+def ptsort_loop1(c):
+    numv, i = c.arr("numv"), c.v("i")
+    return [("range", And(0 <= i, i <= c.g("nspec"))),
+            ("counts", All("v", (0, c.p("iihmax")), lambda v: And(numv.init(v), 0 <= numv[v], numv[v] <= i,
+                                                                  numv[v] == cnt(v, i))))]
+
+
+def ptsort_loop2(c):
+    iaddr, i, n = c.arr("iaddr"), c.v("i"), c.g("nspec")
+    return [("range", And(0 <= i, i <= c.p("iihmax") - 1)),
+            ("prefix", All("v", (0, i + 1), lambda v: And(iaddr.init(v), iaddr[v] == tot(v, n))))]
+
+
+def ptsort_loop3(c):
+    iaddr, iorder, imi, i, n = c.arr("iaddr"), c.arr("iorder"), c.garr("imi"), c.v("i"), c.g("nspec")
+    return [("range", And(0 <= i, i <= c.p("nnspec"))),
+            ("iaddr", All("v", (0, c.p("iihmax")), lambda v: And(iaddr.init(v), iaddr[v] == tot(v, n) + cnt(v, i)))),
+            ("iorder", All("k", (0, i), lambda k: And(iorder.init(k), iorder[k] == tot(imi[k], n) + cnt(imi[k], k),
+                                                      0 <= iorder[k], iorder[k] < n)))]
+
+
+def ptsort_loop4(c):
+    ind, iorder, i, nspec = c.garr("ind"), c.arr("iorder"), c.v("i"), c.g("nspec")
+    return [("range", And(0 <= i, i <= c.p("nnspec"))),
+            ("placed", All("k", (0, i), lambda k: And(ind.init(iorder[k]), 0 <= ind[iorder[k]], ind[iorder[k]] < nspec)))]
+
+
+# --------------------------------------------------------------------------------------------
+# pt_fld
+# --------------------------------------------------------------------------------------------
+QUEUE = ("index taken from the FIFO: its validity is a whole-algorithm invariant of the immersion "
+         "(queue discipline of Vincent-Soille), not a contract-level fact; covered by the bounded ASan/UBSan stand-in")
+
+
+def pt_fld_requires(c):
+    nspec, ihmax = c.g("nspec"), c.p("ihmax")
+    neigh, imi, ind, imo, zp = (c.garr(g) for g in ("neigh", "imi", "ind", "imo", "zp"))
+    return [("nspec", And(nspec >= 1, 9 * nspec <= INT_MAX)), ("ihmax", ihmax >= 1),
+            ("neigh", And(neigh.alive, neigh.len == 9 * nspec)),
+            ("neigh_shape", All("n", (0, nspec), lambda n: row_shape(neigh, n, nspec))),
+            ("imi", And(imi.alive, imi.len == nspec)), ("levels", levels_ok(imi, nspec, ihmax)),
+            ("ind", And(ind.alive, ind.len == nspec)), ("ind_range", perm_ok(ind, nspec)),
+            ("imo", And(imo.alive, imo.len == nspec)),
+            ("zp", And(zp.alive, zp.len == nspec)), ("zp_written", All("k", (0, nspec), lambda k: zp.init(k)))]
+
+
+def pt_fld_ensures(c):
+    imo = c.garr("imo")
+    return [("imo_written", All("k", (0, c.g("nspec")), lambda k: imo.init(k)))]
+
+
+def _fill(arr):
+    def inv(c):
+        A, i = c.arr(arr), c.v("i")
+        return [("range", And(0 <= i, i <= c.g("nspec"))), ("written", All("k", (0, i), lambda k: A.init(k)))]
+    return inv
+
+
+def _all_written(c, *arrs):
+    nspec = c.g("nspec")
+    return [("written_" + a, All("k", (0, nspec), lambda k, A=c.arr(a): A.init(k))) for a in arrs]
+
+
+def _queue_state(c):
+    nspec = c.g("nspec")
+    return [("m", And(0 <= c.v("m"), c.v("m") < nspec)),
+            ("iq_start", And(0 <= c.v("iq_start"), c.v("iq_start") < nspec)),
+            ("iq_end", And(0 <= c.v("iq_end"), c.v("iq_end") < nspec))] + _all_written(c, "imo", "imd")
+
+
+def pt_fld_loop3(c):
+    return [("ih", 0 <= c.v("ih"))] + _queue_state(c)
+
+
+def pt_fld_nbr(c):
+    nspec = c.g("nspec")
+    return [("i", 0 <= c.v("i")), ("iq_end", And(0 <= c.v("iq_end"), c.v("iq_end") < nspec))] + \
+        _all_written(c, "imo", "imd")
+
+
+def pt_fld_loop11(c):
+    return [("j", And(0 <= c.v("j"), c.v("j") <= 5))] + _all_written(c, "imo", "imd")
+
+
+def pt_fld_loop12(c):
+    return [("range", And(0 <= c.v("i"), c.v("i") <= c.g("nspec")))] + _all_written(c, "imd")
+
+
+def pt_fld_loop13(c):
+    return [("range", And(0 <= c.v("jl"), c.v("jl") <= c.g("nspec")))] + _all_written(c, "imd")
+
+
+def pt_fld_loop14(c):
+    neigh, jl, jn, ipt = c.garr("neigh"), c.v("jl"), c.v("jn"), c.v("ipt")
+    return [("range", And(0 <= jn, jn <= neigh[8 + 9 * jl])), ("ipt", And(-1 <= ipt, ipt < jn))]
+
+
+def pt_fld_loop15(c):
+    return [("range", And(0 <= c.v("i"), c.v("i") <= c.g("nspec")))] + _all_written(c, "imo")
+
+
+def _v(name, bound):
+    return lambda c: c.g(bound) - c.v(name)
+
+
 CONTRACTS = {
     "ptnghb": Fn(requires=ptnghb_requires, ensures=ptnghb_ensures, rebinds=("neigh",),
-                 loops={0: Loop(inv=ptnghb_loop0, variant=lambda c: c.g("nspec") - c.v("n"), cuts=ptnghb_cuts)},
+                 loops={0: Loop(inv=ptnghb_loop0, variant=lambda c: c.g("nspec") - c.v("n"), cuts=ptnghb_cuts,
+                               split=lambda c: [c.v("i") == 0, c.v("i") == c.g("mk") - 1,
+                                                c.v("j") == 0, c.v("j") == c.g("mth") - 1])},
                  lemmas=ptnghb_lemmas),
+    "partinit": Fn(requires=partinit_requires, ensures=partinit_ensures,
+                   assigns=(("g", "nspec"), ("g", "mk"), ("g", "mth")), rebinds=GLOBAL_ARRAYS),
+    "partition": Fn(requires=partition_requires, ensures=partition_ensures, return_ensures={0: partition_return0},
+                    assigns=(("g", "nspec"), ("g", "mk"), ("g", "mth"), ("g", "npart"), ("parr", "ipart")),
+                    rebinds=GLOBAL_ARRAYS, ptr_params={"spec": ("block", "float"), "ipart": ("block", "int")},
+                    loops={0: Loop(inv=_copy_outer("zp"), variant=lambda c: c.g("mth") - c.v("iang")),
+                           1: Loop(inv=_copy_inner("zp"), variant=lambda c: c.g("mk") - c.v("ifreq")),
+                           2: Loop(inv=partition_loop2, variant=_v("i", "nspec")),
+                           3: Loop(inv=partition_loop3, variant=_v("i", "nspec")),
+                           4: Loop(inv=partition_loop4, variant=_v("i", "nspec")),
+                           5: Loop(inv=partition_loop5, variant=_v("i", "nspec")),
+                           6: Loop(inv=_copy_outer("ipart"), variant=lambda c: c.g("mth") - c.v("iang")),
+                           7: Loop(inv=_copy_inner("ipart"), variant=lambda c: c.g("mk") - c.v("ifreq"))}),
+    "ptsort": Fn(requires=ptsort_requires, ensures=ptsort_ensures, assigns=(("garr", "ind"),),
+                 ghost=ptsort_ghost, lemmas=ptsort_lemmas,
+                 loops={0: Loop(inv=ptsort_loop0, variant=lambda c: c.p("iihmax") - c.v("i")),
+                        1: Loop(inv=ptsort_loop1, variant=_v("i", "nspec")),
+                        2: Loop(inv=ptsort_loop2, variant=lambda c: c.p("iihmax") - 1 - c.v("i")),
+                        3: Loop(inv=ptsort_loop3, variant=lambda c: c.p("nnspec") - c.v("i")),
+                        4: Loop(inv=ptsort_loop4, variant=lambda c: c.p("nnspec") - c.v("i"))}),
+    "pt_fld": Fn(requires=pt_fld_requires, ensures=pt_fld_ensures, assigns=(("g", "npart"), ("garr", "imo")),
+                 ptr_params={"imi": ("global", "imi"), "ind": ("global", "ind"), "imo": ("global", "imo"),
+                             "zp": ("global", "zp")},
+                 loops={0: Loop(inv=_fill("imo"), variant=_v("i", "nspec")),
+                        1: Loop(inv=_fill("imd"), variant=_v("i", "nspec")),
+                        2: Loop(inv=lambda c: [("range", And(1 <= c.v("i"), c.v("i") <= c.g("nspec")))], variant=_v("i", "nspec")),
+                        3: Loop(inv=pt_fld_loop3, variant=lambda c: c.p("ihmax") - c.v("ih"), outside=QUEUE),
+                        4: Loop(inv=_queue_state, outside=QUEUE),
+                        5: Loop(inv=pt_fld_nbr, outside=QUEUE),
+                        6: Loop(inv=_queue_state, outside=QUEUE),
+                        7: Loop(inv=pt_fld_nbr, outside=QUEUE),
+                        8: Loop(inv=_queue_state, outside=QUEUE),
+                        9: Loop(inv=_queue_state, outside=QUEUE),
+                        10: Loop(inv=pt_fld_nbr, outside=QUEUE),
+                        11: Loop(inv=pt_fld_loop11, variant=lambda c: 5 - c.v("j")),
+                        12: Loop(inv=pt_fld_loop12, variant=_v("i", "nspec")),
+                        13: Loop(inv=pt_fld_loop13, variant=_v("jl", "nspec")),
+                        14: Loop(inv=pt_fld_loop14, variant=lambda c: c.garr("neigh")[8 + 9 * c.v("jl")] - c.v("jn")),
+                        15: Loop(inv=pt_fld_loop15, variant=_v("i", "nspec"))}),
     "fifo_add": Fn(requires=fifo_add_requires, ensures=fifo_add_ensures, assigns=(("parr", "iq"),),
                    ptr_params={"iq": ("block", "int")}),
     "fifo_first": Fn(requires=fifo_first_requires, ensures=fifo_first_ensures, assigns=(("deref", "iq_start"),),
